@@ -15,7 +15,7 @@ class FnCtx:
     def __init__(self, env, rng):
         self.env, self.rng = env, rng
         mesh, function = env.mesh, env.function
-        self.d = d = int(rng.choice([1, 2, 2, 2, 3]))
+        self.d = d = int(rng.choice([1, 2, 2, 2, 3, 3]))
         nel = [int(rng.integers(1, 3)) for _ in range(d)]
         if d == 1:
             nel = [int(rng.integers(2, 4))]
